@@ -826,9 +826,22 @@ func init() {
 		Prop: "C14",
 		Rule: "history with at least 2 calls from the malformed-input grammar, at least one of them rejected, followed by further operations, Visualize and String",
 		Gen: genGeneric("C14", func(g *genCtx) {
-			g.ft.FaultRate, g.ft.FaultInv = 0, 0
+			// failing decorators / constructors reach the error paths of
+			// Visualize; the no-trace twin is still exact (faults are keyed by
+			// function and execution index)
+			g.ft.FaultRate = []float64{0, 0.1, 0.25}[g.r.Intn(3)]
+			g.ft.FaultInv = 0
+			g.ft.VisAfterInvoke = 0.3
+			g.ft.GroupDecs = g.r.P(0.7)
 			g.ft.MalRate = []float64{0.15, 0.3, 0.5}[g.r.Intn(3)]
 			g.ft.PAvail = 0.85
+			if g.r.Intn(3) == 0 {
+				// declared functions have distinct constructor ids, which the
+				// error paths of Visualize look up
+				g.ft.Catalog = true
+				g.ft.NT = 6
+				g.ft.Names, g.ft.Groups = []string{"n1", "n2"}, []string{"g1", "g2"}
+			}
 			g.ft.NamedSlice = g.r.P(0.3)
 			g.ft.DecoIntroduce = g.r.P(0.3)
 		}, Mix{Scope: 2, Provide: 8, Decorate: 3, Invoke: 8, VisStr: 4}),
